@@ -381,9 +381,128 @@ void vf_harness(void)
                 canaries=[{"fn": "Grid::dilate", "rx": r"_iwork0\[idim\] = -mode \* nshift\[idim\];", "rp": "_iwork0[idim] = mode * nshift[idim];", "expect": r"assertion"}])
 
 
+def unit_subgrid():
+    """derived grid: DbGrid::createSubGrid - geometry of the sub-grid"""
+    pre = """
+#define nullptr 0
+#define messerr(...) ((void)0)
+#define TEST 1.234e30
+int nondet_int(); bool nondet_bool(); double nondet_double();
+#define ND 3
+struct VectorInt { int a[ND]; int n; VectorInt() : n(0) {} VectorInt(int k) : n(k) { for (int i = 0; i < ND; i++) a[i] = 0; }
+  VectorInt(const VectorInt& o) : n(o.n) { for (int i = 0; i < ND; i++) a[i] = o.a[i]; } VectorInt& operator=(const VectorInt& o) { n = o.n; for (int i = 0; i < ND; i++) a[i] = o.a[i]; return *this; }
+  int size() const { return n; } int& operator[](int i) { __CPROVER_assert(0 <= i && i < n && i < ND, "index inside the vector"); return a[i]; }
+  int operator[](int i) const { __CPROVER_assert(0 <= i && i < n && i < ND, "index inside the vector"); return a[i]; } };
+struct VectorDouble { double a[ND]; int n; VectorDouble() : n(0) {} VectorDouble(int k) : n(k) { for (int i = 0; i < ND; i++) a[i] = 0.; }
+  VectorDouble(const VectorDouble& o) : n(o.n) { for (int i = 0; i < ND; i++) a[i] = o.a[i]; } VectorDouble& operator=(const VectorDouble& o) { n = o.n; for (int i = 0; i < ND; i++) a[i] = o.a[i]; return *this; }
+  int size() const { return n; } double& operator[](int i) { __CPROVER_assert(0 <= i && i < n && i < ND, "index inside the vector"); return a[i]; }
+  double operator[](int i) const { __CPROVER_assert(0 <= i && i < n && i < ND, "index inside the vector"); return a[i]; } };
+struct VectorVectorInt { VectorInt a[ND]; int n; VectorVectorInt() : n(0) {}
+  VectorVectorInt(const VectorVectorInt& o) : n(o.n) { for (int i = 0; i < ND; i++) a[i] = o.a[i]; }
+  int size() const { return n; } VectorInt& operator[](int i) { __CPROVER_assert(0 <= i && i < n && i < ND, "index inside the vector"); return a[i]; } };
+struct String { int t; String() : t(0) {} }; struct VectorString { int n; VectorString() : n(0) {} int size() const { return n; } String operator[](int) const { String s; return s; } };
+struct ELoadBy { int v; ELoadBy() : v(0) {} static ELoadBy fromKey(const char*) { ELoadBy e; return e; } };   /* (value-initialising a struct that has member functions crashes CBMC) */
+/* ghost: the index -> coordinate conversion of the ORIGINAL grid (unit C16.coordinate_conversions.order) */
+int g_i2c_calls; VectorInt g_i2c_ind; double W_origin[ND];
+struct Grid { VectorDouble indicesToCoordinate(const VectorInt& ind, const VectorDouble& percent = VectorDouble()) const
+  { g_i2c_calls++; g_i2c_ind = ind; __CPROVER_assert(percent.n == 0, "no cell fraction"); VectorDouble r(ind.n); for (int i = 0; i < ND; i++) r.a[i] = W_origin[i]; return r; } };
+int g_created; VectorInt g_nx; VectorDouble g_dx, g_x0, g_ang;
+class DbGrid { public: int _ndim; VectorInt _nx; VectorDouble _dx, _x0, _ang; Grid _grid;
+  int getNDim() const { return _ndim; } VectorString getAllNames(bool) const { return VectorString(); } VectorInt getUIDs(const VectorString&) const { return VectorInt(); }
+  VectorInt getNXs() const { return _nx; } VectorDouble getDXs() const { return _dx; } VectorDouble getX0s() const { return _x0; } VectorDouble getAngles() const { return _ang; }
+  const Grid& getGrid() const { Grid* q = (Grid*) &_grid; return *q; }
+  static DbGrid* create(const VectorInt& nx, const VectorDouble& dx, const VectorDouble& x0, const VectorDouble& angles, const ELoadBy&, const VectorDouble&, const VectorString&, const VectorString&, int, bool)
+  { g_created++; g_nx = nx; g_dx = dx; g_x0 = x0; g_ang = angles; DbGrid* g = new DbGrid; g->_ndim = nx.n; return g; }
+  int addColumnsByConstant(int, double, const String&) { return 0; } int getSampleNumber() const { return 0; }      /* the copy of the values is not part of this unit */
+  void rankToIndice(int, VectorInt&) const {} int indiceToRank(const VectorInt&) const { return 0; } double getArray(int, int) const { return 0.; } void setArray(int, int, double) {}
+  static DbGrid* createSubGrid(const DbGrid* gridIn, VectorVectorInt limits, bool flagAddCoordinates); };
+"""
+    f = Fn("DbGrid::createSubGrid", "src/Db/DbGrid.cpp", r"^DbGrid\* DbGrid::createSubGrid\(const DbGrid\* gridIn, VectorVectorInt limits, bool flagAddCoordinates\)\s*$")
+    h = """
+void vf_harness()
+{
+  DbGrid in; in._ndim = nondet_int(); __CPROVER_assume(1 <= in._ndim && in._ndim <= ND);
+  in._nx.n = in._ndim; in._dx.n = in._ndim; in._x0.n = in._ndim; in._ang.n = in._ndim;
+  VectorVectorInt lim; lim.n = in._ndim;
+  for (int d = 0; d < ND; d++) { in._nx.a[d] = nondet_int(); in._dx.a[d] = nondet_double(); in._x0.a[d] = nondet_double(); in._ang.a[d] = nondet_double(); W_origin[d] = nondet_double();
+    lim.a[d].n = 2; lim.a[d].a[0] = nondet_int(); lim.a[d].a[1] = nondet_int(); __CPROVER_assume(0 <= lim.a[d].a[0] && lim.a[d].a[0] <= lim.a[d].a[1] && lim.a[d].a[1] <= 100000); }
+  g_created = 0; g_i2c_calls = 0;
+  DbGrid* out = DbGrid::createSubGrid(&in, lim, nondet_bool());
+  __CPROVER_assert(out != 0 && g_created == 1, "the sub-grid is created");
+  __CPROVER_assert(g_i2c_calls == 1, "its origin comes from the index -> coordinate conversion of the original grid (which applies the rotation)");
+  for (int d = 0; d < ND; d++) if (d < in._ndim) {
+    __CPROVER_assert(g_i2c_ind.n == in._ndim && g_i2c_ind.a[d] == lim.a[d].a[0], "... asked for the node of the lower limits");
+    __CPROVER_assert(g_x0.a[d] == W_origin[d] || g_x0.a[d] != g_x0.a[d], "... and used as the origin of the sub-grid");
+    __CPROVER_assert(g_nx.a[d] == lim.a[d].a[1] - lim.a[d].a[0], "node count = upper - lower limit");
+    __CPROVER_assert((g_dx.a[d] == in._dx.a[d] || g_dx.a[d] != g_dx.a[d]) && (g_ang.a[d] == in._ang.a[d] || g_ang.a[d] != g_ang.a[d]), "same mesh and same rotation as the original grid"); }
+  VF_REACH();
+}
+"""
+    return Unit("C16.createSubGrid.geometry", [f], mode="cpp", prelude=pre, harness=h, unwind=5, checks=[], backends=("minisat", "cadical"), timeout=600,
+                ignore=r"delete argument must be dynamic object|double delete",
+                bounded="space dimension <= 3 (unwinding assertions)",
+                claim=("DbGrid::createSubGrid: the sub-grid keeps mesh and rotation, has upper - lower nodes per axis, and its origin is the coordinate of the node of the lower "
+                       "limits obtained through the index -> coordinate conversion of the original grid (rotation included)"),
+                assumptions=["Route X; DbGrid / Grid are stubs recording the geometry handed to DbGrid::create; the copy of the values is outside this unit"],
+                canaries=[{"fn": "DbGrid::createSubGrid", "rx": r"NXs\[idim\]\s*= limits\[idim\]\[1\] - limits\[idim\]\[0\];", "rp": "NXs[idim] = limits[idim][1] - limits[idim][0] + 1;", "expect": r"assertion"}])
+
+
+def unit_multiple_divider():
+    """derived grids: Grid::multiple / Grid::divider - node counts, mesh, and where the first node of the derived grid lies"""
+    pre = BOOL + """
+#define NDMAX 3
+int _nDim; int _nx[NDMAX]; int _iwork0[NDMAX]; double _dx[NDMAX], _x0[NDMAX];
+#define getNX(i) (_nx[i])
+#define getDX(i) (_dx[i])
+#define getX0(i) (_x0[i])
+double floor(double);
+typedef struct { double a[NDMAX]; } vd;
+#define VD_DECL(name) vd name
+/* ghost for indicesToCoordinateInPlace(indice, coor, percent): records every call; the result is an arbitrary vector per call */
+int g_calls; int g_ind[2][NDMAX]; double g_pct[2][NDMAX]; double* g_dst[2];
+static void VF_i2c(const int* indice, vd* coor, const vd* percent)
+{ int k = g_calls < 2 ? g_calls : 1; g_calls++; g_dst[k] = coor->a; for (int d = 0; d < NDMAX; d++) { g_ind[k][d] = indice[d]; g_pct[k][d] = percent->a[d]; coor->a[d] = W_out[k][d]; } }
+"""
+    RW = [(r"VectorDouble (\w+)\(_nDim\);[^\n]*", r"vd \1;", None), (r"\b(perc|coor1|coor2)\[", r"\1.a[", None),
+          (r"indicesToCoordinateInPlace\(_iwork0, (\w+), perc\);", r"VF_i2c(_iwork0, &\1, &perc);", None)]
+    fm = Fn("Grid::multiple", GR, r"^void Grid::multiple\(const VectorInt &nmult,[^{]*?VectorDouble &x0\) const\s*$", csig="void Grid_multiple(const int* nmult, bool flagCell, int* nx, double* dx, double* x0)", rewrites=RW)
+    fd = Fn("Grid::divider", GR, r"^void Grid::divider\(const VectorInt &nmult,[^{]*?VectorDouble &x0\) const\s*$", csig="void Grid_divider(const int* nmult, bool flagCell, int* nx, double* dx, double* x0)", rewrites=RW)
+    h = """
+void vf_harness(void)
+{
+  vf_havoc_inputs();
+  _nDim = W_ndim; __CPROVER_assume(1 <= _nDim && _nDim <= NDMAX);
+  for (int d = 0; d < NDMAX; d++) { _nx[d] = W_nx[d]; _dx[d] = W_dx[d]; _x0[d] = W_x0[d]; __CPROVER_assume(1 <= _nx[d] && _nx[d] <= 10000 && 1 <= W_nmult[d] && W_nmult[d] <= 100); }
+  int nx[NDMAX]; double dx[NDMAX], x0[NDMAX]; g_calls = 0;
+  if (W_mult) Grid_multiple(W_nmult, W_cell, nx, dx, x0); else Grid_divider(W_nmult, W_cell, nx, dx, x0);
+  /* the LAST conversion gives the origin; it must be asked for node 0 shifted by the fraction that puts it at the centre of the first derived cell */
+  __CPROVER_assert(g_calls == 1, "one index -> coordinate conversion (which applies the rotation of the grid)");
+  for (int d = 0; d < NDMAX; d++) if (d < _nDim) {
+    __CPROVER_assert(g_ind[0][d] == 0, "the conversion is asked for node 0 ...");
+    double frac = !W_cell ? 0. : (W_mult ? ((double) W_nmult[d] - 1.) / 2. : (1. / (double) W_nmult[d] - 1.) / 2.);
+    __CPROVER_assert(g_pct[0][d] == frac, "... shifted, along each GRID axis, by the fraction that puts it at the centre of the first derived cell (0 for node matching)");
+    __CPROVER_assert(x0[d] == W_out[0][d] || x0[d] != x0[d], "the origin of the derived grid is the coordinate returned");
+    if (W_mult) __CPROVER_assert(dx[d] == _dx[d] * W_nmult[d] || dx[d] != dx[d], "mesh multiplied"); else __CPROVER_assert(dx[d] == _dx[d] / ((double) W_nmult[d]) || dx[d] != dx[d], "mesh divided");
+    if (!W_mult) __CPROVER_assert(nx[d] == (W_cell ? _nx[d] * W_nmult[d] : 1 + (_nx[d] - 1) * W_nmult[d]), "node count of the divided grid");
+  }
+  VF_REACH();
+}
+"""
+    return Unit("C16.multiple_divider", [fm, fd], prelude=pre, harness=h, pre_inputs=BOOL,
+                inputs=[("int", "W_ndim"), ("bool", "W_mult"), ("bool", "W_cell"), ("int", "W_nx", "3"), ("int", "W_nmult", "3"), ("double", "W_dx", "3"), ("double", "W_x0", "3"), ("double", "W_out", "2][3")],
+                unwind=5, checks=["--bounds-check", "--pointer-check", "--signed-overflow-check"], backends=("minisat", "cadical", "cvc5"), timeout=600,
+                bounded="space dimension <= 3 (unwinding assertions)",
+                claim=("Grid::multiple / Grid::divider: mesh multiplied / divided, node count of the divided grid, and the origin of the derived grid is the coordinate - through "
+                       "ONE index -> coordinate conversion of the current grid, hence with its rotation - of node 0 shifted along each grid axis by (nmult - 1)/2 cells "
+                       "(multiple) or (1/nmult - 1)/2 cells (divider) in cell matching, by 0 in node matching"),
+                assumptions=["the conversion is a ghost recording its arguments (unit C16.coordinate_conversions.order); floor() of the node count of the multiple grid is not "
+                             "claimed (floating-point division)"],
+                canaries=[{"fn": "Grid::divider", "rx": r"getDX\(idim\) / \(\(double\) nmult\[idim\]\)", "rp": "getDX(idim) * ((double) nmult[idim])", "expect": r"assertion"}])
+
+
 def units(tier):
     nxmax = 12 if tier == "quick" else 20
-    return [unit_i2r(nxmax), unit_r2i(nxmax), unit_roundtrip(nxmax), unit_coord_order(), unit_rotation(), unit_get_coordinate(), unit_dilate()]
+    return [unit_i2r(nxmax), unit_r2i(nxmax), unit_roundtrip(nxmax), unit_coord_order(), unit_rotation(), unit_get_coordinate(), unit_dilate(), unit_subgrid(), unit_multiple_divider()]
 
 
 META = {
